@@ -264,10 +264,9 @@ func cloneValue(v reflect.Value, d int, seen map[uintptr]reflect.Value) reflect.
 	v = readable(v)
 	out := reflect.New(v.Type()).Elem()
 	if isSyncT(v.Type()) {
-		// a lock, Once, WaitGroup: the pristine state is the zero value; a Pool keeps its New function
-		if v.Type().PkgPath() == "sync" && v.Type().Name() == "Pool" {
-			out.FieldByName("New").Set(v.FieldByName("New"))
-		}
+		// a lock, Once, WaitGroup, Pool, atomic: the state it was in before the first execution (a Once not yet fired, a
+		// Pool with its New function, an atomic holding what init() stored), copied as it is
+		out.Set(v)
 		return out
 	}
 	if d > 16 || leaveAlone(v.Type()) || v.Kind() == reflect.Chan {
@@ -323,17 +322,15 @@ func cloneValue(v reflect.Value, d int, seen map[uintptr]reflect.Value) reflect.
 
 // restoreInto makes live equal to a fresh copy of init, in place where identity matters.
 func restoreInto(live, init reflect.Value, d int) {
-	live = writable(live)
+	live, init = writable(live), readable(init)
 	if !live.CanSet() {
 		return
 	}
 	if isSyncT(live.Type()) {
 		// no task is alive between executions: a Once that has fired, a mutex a dead run left locked, a WaitGroup
-		// counter go back to their zero value (a helper goroutine started "once" is started again by the next execution)
-		live.Set(reflect.Zero(live.Type()))
-		if live.Type().PkgPath() == "sync" && live.Type().Name() == "Pool" {
-			live.FieldByName("New").Set(init.FieldByName("New"))
-		}
+		// counter go back to what they were before the first execution (a helper goroutine started "once" is started
+		// again by the next execution)
+		live.Set(init)
 		return
 	}
 	if d > 16 || leaveAlone(live.Type()) {
